@@ -19,6 +19,12 @@ func (e *lfEngine) doCall(fr *lfFrame, st *lfState, x *ssa.Call, k func(st *lfSt
 		return
 	}
 	name := calleeName(cc)
+	if e.bits {
+		if res, ok := e.bitsIntercept(fr, st, x, name); ok {
+			k(st, res, fr)
+			return
+		}
+	}
 	// ---- contracts for code outside the module
 	if res, ok := e.contract(fr, st, x, name); ok {
 		k(st, res, fr)
@@ -108,6 +114,9 @@ func (e *lfEngine) tracksSig(sig *types.Signature) bool {
 	if e.tracksResult(sig) {
 		return true
 	}
+	if rv := sig.Recv(); rv != nil && (isIntType(rv.Type()) || sliceLike(rv.Type())) {
+		return true
+	}
 	for i := 0; i < sig.Params().Len(); i++ {
 		t := sig.Params().At(i).Type()
 		if isIntType(t) || sliceLike(t) {
@@ -135,9 +144,12 @@ func (e *lfEngine) tracksResult(sig *types.Signature) bool {
 // invokeTargets: module methods that can be the target of an interface call,
 // only for interfaces declared in the module and results the analysis tracks.
 func (e *lfEngine) invokeTargets(cc *ssa.CallCommon, recv lfVal) []*ssa.Function {
-	// known dynamic value?
+	// known dynamic value: a function value converted to a named func type with methods
 	if nv, ok := recv.(vNilable); ok && nv.Inner != nil {
-		_ = nv
+		if _, isFn := nv.Inner.(vFunc); isFn {
+			// the method set of the named func type the function was converted to: found below by type
+			_ = nv
+		}
 	}
 	it, ok := cc.Value.Type().(*types.Named)
 	if !ok || it.Obj().Pkg() == nil || !strings.HasPrefix(it.Obj().Pkg().Path(), modPath) {
@@ -275,11 +287,11 @@ func (e *lfEngine) builtin(fr *lfFrame, st *lfState, x *ssa.Call, name string) l
 	switch name {
 	case "len":
 		if ln, ok := e.asSlice(st, e.val(fr, st, args[0]), args[0].Type(), valueName(args[0])); ok {
-			return vInt{ln}
+			return vInt{E: ln}
 		}
 		s := linSym(e.newSym("len(" + exprText(args[0]) + ")"))
 		st.cons = append(st.cons, geq(s, linConst(0)))
-		return vInt{s}
+		return vInt{E: s}
 	case "cap":
 		s := linSym(e.newSym("cap(" + exprText(args[0]) + ")"))
 		if ln, ok := e.asSlice(st, e.val(fr, st, args[0]), args[0].Type(), valueName(args[0])); ok {
@@ -287,15 +299,15 @@ func (e *lfEngine) builtin(fr *lfFrame, st *lfState, x *ssa.Call, name string) l
 		} else {
 			st.cons = append(st.cons, geq(s, linConst(0)))
 		}
-		return vInt{s}
+		return vInt{E: s}
 	case "append":
 		a, ok1 := e.asSlice(st, e.val(fr, st, args[0]), args[0].Type(), valueName(args[0]))
 		if len(args) == 1 {
-			return vSlice{a}
+			return vSlice{Len: a}
 		}
 		b, ok2 := e.asSlice(st, e.val(fr, st, args[1]), args[1].Type(), valueName(args[1]))
 		if ok1 && ok2 {
-			return vSlice{a.add(b, 1)}
+			return vSlice{Len: a.add(b, 1)}
 		}
 		return e.fresh(st, x.Type(), x.Name())
 	case "copy":
@@ -326,7 +338,27 @@ func (e *lfEngine) builtin(fr *lfFrame, st *lfState, x *ssa.Call, name string) l
 		if b, ok := e.asSlice(st, e.val(fr, st, args[1]), args[1].Type(), valueName(args[1])); ok {
 			st.cons = append(st.cons, leq(n, b))
 		}
-		return vInt{n}
+		if e.bits && e.onStore != nil && e.quiet == 0 {
+			dv, _ := e.val(fr, st, args[0]).(vSlice)
+			src := e.renderVal(e.val(fr, st, args[1]))
+			if cv, ok := args[1].(*ssa.Convert); ok {
+				// []byte(string field)
+				if ld, ok := cv.X.(*ssa.UnOp); ok {
+					if p, ok := e.val(fr, st, ld.X).(vPtr); ok && p.Obj == e.recvObj {
+						src = "f:" + strings.TrimPrefix(p.Path, ".")
+					}
+				}
+			}
+			if dv.Org != nil {
+				switch {
+				case strings.HasPrefix(dv.Org.Name, "f:"):
+					e.onStore(st, "field", strings.TrimPrefix(dv.Org.Name, "f:"), "copy("+src+")", x.Pos(), nil)
+				case dv.Org.Name != "d":
+					e.onStore(st, "wire", e.renderVal(dv), "copy("+src+")", x.Pos(), nil)
+				}
+			}
+		}
+		return vInt{E: n}
 	case "min", "max":
 		r := e.fresh(st, x.Type(), x.Name())
 		if ri, ok := r.(vInt); ok {
@@ -385,11 +417,11 @@ func (e *lfEngine) contract(fr *lfFrame, st *lfState, x *ssa.Call, name string) 
 		// field fact (checked separately by the who-writes rule): every store to an
 		// AES128CBC.cipher field is the result of crypto/aes.NewCipher, whose blocks are 16 bytes
 		if strings.HasSuffix(apOf(cc.Value).SelString(), "cipher") {
-			return vInt{linConst(16)}, true
+			return vInt{E: linConst(16)}, true
 		}
 		s := linSym(e.newSym("BlockSize()"))
 		st.cons = append(st.cons, geq(s, linConst(1)))
-		return vInt{s}, true
+		return vInt{E: s}, true
 	case "crypto/cipher.NewCBCDecrypter", "crypto/cipher.NewCBCEncrypter":
 		if ln, ok := sliceArg(1); ok {
 			e.require(fr, st, x, "cipher.NewCBC*: len(iv) == block size 16", geq(ln, linConst(16)), leq(ln, linConst(16)))
@@ -421,15 +453,15 @@ func (e *lfEngine) contract(fr *lfFrame, st *lfState, x *ssa.Call, name string) 
 		s := linSym(e.newSym("digestSize"))
 		st.cons = append(st.cons, geq(s, linConst(0)))
 		if ln, ok := sliceArg(0); ok {
-			return vSlice{ln.add(s, 1)}, true
+			return vSlice{Len: ln.add(s, 1)}, true
 		}
-		return vSlice{s}, true
+		return vSlice{Len: s}, true
 	case "(hash.Hash).Write", "(io.Writer).Write":
 		return vTuple{e.fresh(st, types.Typ[types.Int], "n"), vNilable{ID: e.id()}}, true
 	case "(hash.Hash).Reset", "(github.com/google/gopacket.DecodeFeedback).SetTruncated":
 		return vOpaque{}, true
 	case "crypto/hmac.Equal":
-		return vOpaqueBool{e.id()}, true
+		return vOpaqueBool{ID: e.id()}, true
 	case "fmt.Errorf", "errors.New":
 		return vNilable{ID: e.id(), Nil: 2}, true
 	case "math.Ceil", "math.Floor":
@@ -447,7 +479,7 @@ func (e *lfEngine) contract(fr *lfFrame, st *lfState, x *ssa.Call, name string) 
 		if ln, ok := sliceArg(0); ok {
 			st.cons = append(st.cons, leq(n, ln))
 		}
-		out := vTuple{vInt{n}}
+		out := vTuple{vInt{E: n}}
 		sig := cc.Signature()
 		for i := 1; i < sig.Results().Len(); i++ {
 			out = append(out, e.fresh(st, sig.Results().At(i).Type(), "r"))
@@ -614,3 +646,281 @@ func loopHasCtxCall(fn *ssa.Function, l *Loop) bool {
 }
 
 var _ = token.ADD
+
+
+// ---------------------------------------------------------------- bits mode (engine E2) call models
+
+func (e *lfEngine) bufName(st *lfState, kind string) string {
+	key := "#" + kind
+	n := int64(0)
+	if v, ok := st.heap[key].(vInt); ok {
+		n, _ = v.E.isConst()
+	}
+	n++
+	st.heap[key] = vInt{E: linConst(n)}
+	if n == 1 {
+		return kind
+	}
+	return fmt.Sprintf("%s%d", kind, n)
+}
+
+// elemBits fetches the bit provenance of element k of the array/slice value v
+// (through the heap: local arrays and output buffers are written element-wise).
+func (e *lfEngine) elemBits(fr *lfFrame, st *lfState, v ssa.Value, k int64) *bv {
+	switch x := v.(type) {
+	case *ssa.UnOp: // load of a local array
+		if p, ok := e.val(fr, st, x.X).(vPtr); ok {
+			key := fmt.Sprintf("%d%s[%s]", p.Obj, p.Path, linConst(k).key())
+			if iv, ok := st.heap[key].(vInt); ok {
+				if iv.B != nil {
+					return iv.B
+				}
+				if c, isC := iv.E.isConst(); isC {
+					return bvConst(c, 8)
+				}
+			}
+		}
+	case *ssa.Slice:
+		if sv, ok := e.val(fr, st, x).(vSlice); ok && sv.Org != nil {
+			if off, isK := sv.Org.Off.isConst(); isK {
+				if sv.Org.Name == "d" {
+					return bvSrc(fmt.Sprintf("d%d", off+k), 8)
+				}
+				key := fmt.Sprintf("%d[%s]", -50000-sv.Org.ID, linConst(off+k).key())
+				if iv, ok := st.heap[key].(vInt); ok && iv.B != nil {
+					return iv.B
+				}
+			}
+		}
+		// slice of a local array: x.X is the alloc
+		if p, ok := e.val(fr, st, x.X).(vPtr); ok {
+			lo := int64(0)
+			if x.Low != nil {
+				if li, ok := e.val(fr, st, x.Low).(vInt); ok {
+					lo, _ = li.E.isConst()
+				}
+			}
+			key := fmt.Sprintf("%d%s[%s]", p.Obj, p.Path, linConst(lo+k).key())
+			if iv, ok := st.heap[key].(vInt); ok {
+				if iv.B != nil {
+					return iv.B
+				}
+				if c, isC := iv.E.isConst(); isC {
+					return bvConst(c, 8)
+				}
+			}
+		}
+	}
+	return nil
+}
+
+func concatLE(parts []*bv) *bv {
+	out := &bv{}
+	for _, p := range parts {
+		if p == nil || p.Tag != "" {
+			return nil
+		}
+		out.Bits = append(out.Bits, p.resize(8, false).Bits...)
+	}
+	return out
+}
+
+func (e *lfEngine) bitsIntercept(fr *lfFrame, st *lfState, x *ssa.Call, name string) (lfVal, bool) {
+	cc := &x.Call
+	args := callArgs(cc)
+	emit := func(kind, n, v string, b ...*bv) {
+		if e.onStore != nil && e.quiet == 0 {
+			var bb *bv
+			if len(b) > 0 {
+				bb = b[0]
+			}
+			e.onStore(st, kind, n, v, x.Pos(), bb)
+		}
+	}
+	switch name {
+	case "(github.com/google/gopacket.SerializeBuffer).PrependBytes", "(github.com/google/gopacket.SerializeBuffer).AppendBytes":
+		kind := "pre"
+		if strings.HasSuffix(name, "AppendBytes") {
+			kind = "app"
+		}
+		n := e.asInt(st, e.val(fr, st, args[0]), args[0].Type(), "n")
+		e.require(fr, st, x, kind+"pend length ≥ 0", geq(n, linConst(0)))
+		if cur, ok := st.heap["#buflen"].(vInt); ok {
+			st.heap["#buflen"] = vInt{E: cur.E.add(n, 1)}
+		}
+		bn := e.bufName(st, kind)
+		emit("len", bn, e.linString(n))
+		if e.onStore != nil && e.quiet == 0 && len(st.events) > 0 {
+			nn := n
+			st.events[len(st.events)-1].L = &nn
+		}
+		return vTuple{vSlice{Len: n, Org: &sliceOrg{ID: e.id(), Name: bn, Off: linConst(0)}}, vNilable{ID: e.id()}}, true
+	case "(github.com/google/gopacket.SerializeBuffer).Bytes":
+		// the buffer's current length: constant between two grow operations
+		var s Lin
+		if cur, ok := st.heap["#buflen"].(vInt); ok {
+			s = cur.E
+		} else {
+			s = linSym(e.newSym("len(buffer)"))
+			// a UDP datagram under construction: below 64 KiB (stated assumption)
+			st.cons = append(st.cons, geq(s, linConst(0)), leq(s, linConst(65535)))
+			st.heap["#buflen"] = vInt{E: s}
+		}
+		bn := e.bufName(st, "buf")
+		if e.onStore != nil && e.quiet == 0 {
+			e.onStore(st, "len", bn, e.linString(s), x.Pos(), nil)
+			ss := s
+			st.events[len(st.events)-1].L = &ss
+		}
+		return vSlice{Len: s, Org: &sliceOrg{ID: e.id(), Name: bn, Off: linConst(0)}}, true
+	case "(encoding/binary.littleEndian).Uint16", "(encoding/binary.littleEndian).Uint32", "(encoding/binary.bigEndian).Uint16", "(encoding/binary.bigEndian).Uint32":
+		nb := int64(2)
+		if strings.HasSuffix(name, "32") {
+			nb = 4
+		}
+		if ln, ok := e.asSlice(st, e.val(fr, st, args[0]), args[0].Type(), valueName(args[0])); ok {
+			e.require(fr, st, x, "binary.Uint: "+exprText(args[0])+" has ≥ "+fmt.Sprint(nb)+" bytes", geq(ln, linConst(nb)))
+		}
+		res := e.fresh(st, x.Type(), "u").(vInt)
+		var parts []*bv
+		for i := int64(0); i < nb; i++ {
+			parts = append(parts, e.elemBits(fr, st, args[0], i))
+		}
+		if strings.Contains(name, "bigEndian") {
+			for i, j := 0, len(parts)-1; i < j; i, j = i+1, j-1 {
+				parts[i], parts[j] = parts[j], parts[i]
+			}
+		}
+		if b := concatLE(parts); b != nil {
+			res = e.withBits(res, b)
+		}
+		return res, true
+	case "(encoding/binary.littleEndian).PutUint16", "(encoding/binary.littleEndian).PutUint32", "(encoding/binary.bigEndian).PutUint16", "(encoding/binary.bigEndian).PutUint32":
+		nb := int64(2)
+		if strings.HasSuffix(name, "32") {
+			nb = 4
+		}
+		sv, ok := e.val(fr, st, args[0]).(vSlice)
+		if ok {
+			e.require(fr, st, x, "binary.PutUint: "+exprText(args[0])+" has ≥ "+fmt.Sprint(nb)+" bytes", geq(sv.Len, linConst(nb)))
+		}
+		val, _ := e.val(fr, st, args[1]).(vInt)
+		vb := val.B
+		if vb == nil {
+			if k, isK := val.E.isConst(); isK {
+				vb = bvConst(k, int(nb*8))
+			}
+		}
+		if ok && sv.Org != nil {
+			if off, isK := sv.Org.Off.isConst(); isK {
+				for i := int64(0); i < nb; i++ {
+					j := i
+					if strings.Contains(name, "bigEndian") {
+						j = nb - 1 - i
+					}
+					var byteB *bv
+					if vb != nil && vb.Tag == "" {
+						byteB = &bv{Bits: vb.resize(int(nb*8), false).Bits[j*8 : j*8+8]}
+					}
+					bval := vInt{E: e.fresh(st, types.Typ[types.Uint8], "b").(vInt).E, B: byteB}
+					st.heap[fmt.Sprintf("%d[%s]", -50000-sv.Org.ID, linConst(off+i).key())] = bval
+					if sv.Org.Name != "d" {
+						if byteB != nil {
+							emit("wire", fmt.Sprintf("%s[%d]", sv.Org.Name, off+i), e.renderVal(bval), byteB)
+						} else {
+							emit("wire", fmt.Sprintf("%s[%d]", sv.Org.Name, off+i), fmt.Sprintf("byte%d(%s)", j, e.renderVal(val)))
+						}
+					}
+				}
+			}
+		} else if p, isP := e.val(fr, st, sliceBase(args[0])).(vPtr); isP {
+			// local array buffer: buf[:] — store element-wise
+			for i := int64(0); i < nb; i++ {
+				j := i
+				if strings.Contains(name, "bigEndian") {
+					j = nb - 1 - i
+				}
+				var byteB *bv
+				if vb != nil && vb.Tag == "" {
+					byteB = &bv{Bits: vb.resize(int(nb*8), false).Bits[j*8 : j*8+8]}
+				}
+				st.heap[fmt.Sprintf("%d%s[%s]", p.Obj, p.Path, linConst(i).key())] = vInt{E: e.fresh(st, types.Typ[types.Uint8], "b").(vInt).E, B: byteB}
+			}
+		}
+		return vOpaque{}, true
+	case "github.com/gebn/bmc/internal/pkg/bcd.Decode":
+		a, _ := e.val(fr, st, args[0]).(vInt)
+		res := e.fresh(st, x.Type(), "bcd").(vInt)
+		for s := range res.E.T {
+			e.symNames[s] = "bcd(" + e.renderVal(a) + ")"
+		}
+		res.B = bvTagged("bcd", 8, a.B)
+		if a.B == nil {
+			res.B = nil
+		}
+		return res, true
+	case "github.com/gebn/bmc/internal/pkg/complement.Twos":
+		n, _ := e.val(fr, st, args[1]).(vInt)
+		k, _ := n.E.isConst()
+		hi, lo := e.elemBits(fr, st, args[0], 0), e.elemBits(fr, st, args[0], 1)
+		res := e.fresh(st, x.Type(), "twos").(vInt)
+		if hi != nil && lo != nil {
+			if cat := concatLE([]*bv{lo, hi}); cat != nil {
+				// sign-extend from k bits
+				if k > 0 && int(k) <= len(cat.Bits) {
+					inner := &bv{Bits: cat.Bits[:k]}
+					// upper bits must be zero for the helper's identity to hold
+					clean := true
+					for _, b := range cat.Bits[k:] {
+						if b.K != '0' {
+							clean = false
+						}
+					}
+					if clean {
+						res = e.withBits(res, inner.resize(16, true))
+					} else {
+						res.B = bvTagged(fmt.Sprintf("twos%d-dirty", k), 16, cat)
+					}
+				}
+			}
+		}
+		return res, true
+	case "github.com/gebn/bmc/internal/pkg/complement.Ones":
+		a, _ := e.val(fr, st, args[0]).(vInt)
+		res := e.fresh(st, x.Type(), "ones").(vInt)
+		if a.B != nil {
+			res.B = bvTagged("ones", 8, a.B)
+		}
+		return res, true
+	case "github.com/gebn/bmc/pkg/ipmi.checksum":
+		res := e.fresh(st, x.Type(), "checksum").(vInt)
+		res.B = bvTagged("checksum:"+e.renderVal(e.val(fr, st, args[0])), 8)
+		if ln, ok := e.asSlice(st, e.val(fr, st, args[0]), args[0].Type(), "arg"); ok {
+			_ = ln
+		}
+		return res, true
+	case "github.com/gebn/bmc/pkg/dcmi.rollingAvgPeriodDuration", "github.com/gebn/bmc/pkg/dcmi.rollingAvgPeriodByte":
+		a := e.val(fr, st, args[0])
+		res := e.fresh(st, x.Type(), "ravg")
+		if ri, ok := res.(vInt); ok {
+			tag := "ravgDuration"
+			if strings.HasSuffix(name, "Byte") {
+				tag = "ravgByte"
+			}
+			ri.B = bvTagged(tag+":"+e.renderVal(a), typeBits(x.Type()))
+			return ri, true
+		}
+		return res, true
+	case "time.Unix":
+		a := e.val(fr, st, args[0])
+		return vNilable{ID: e.id(), Nil: 2, Inner: vInt{E: linConst(0), B: bvTagged("unix:"+e.renderVal(a), 64)}}, true
+	}
+	return nil, false
+}
+
+func sliceBase(v ssa.Value) ssa.Value {
+	if sl, ok := v.(*ssa.Slice); ok {
+		return sl.X
+	}
+	return v
+}
